@@ -10,7 +10,7 @@ import (
 	"verif/engine/symex"
 )
 
-func writeEvidence(cfg Config, prog *symex.Program, results []*entryResult, findings []Finding, nViol, nKnown, validated int, inconclusive []string, loadSecs, wall float64) {
+func writeEvidence(cfg Config, prog *symex.Program, results []*entryResult, findings []Finding, nViol, nKnown, validated int, inconclusive []string, unconfirmed []string, loadSecs, wall float64) {
 	paths, queries, unknowns := 0, 0, 0
 	solverSecs := 0.0
 	var samples []interface{}
@@ -96,6 +96,7 @@ func writeEvidence(cfg Config, prog *symex.Program, results []*entryResult, find
 			"solver":                        map[string]interface{}{"processes": keys(solverNames), "time_s": round1(solverSecs), "unknown_answers": unknowns},
 			"known_findings_matched":        uniq(knownMatched),
 			"inconclusive":                  inconclusive,
+			"race_candidates_unconfirmed":   unconfirmed,
 			"load_s":                        round1(loadSecs),
 			"exhaustive":                    false,
 			"explanation":                   "bounded symbolic execution of the real functions (go/ssa of /repo's working tree, re-encoded on every run) with SMT discharge of every harness assertion on every feasible path",
